@@ -154,7 +154,7 @@ def run(res, tier, rng):
         except Exception as e:  # noqa
             io = dict(len=Exc(type(e).__name__), items=[], iter=[], gets=[], lmpv=[], prefixes=[], values=[])
         ci = canon_obs(io)
-        cm = canon_obs(model_obs(out))
+        cm = canon_obs(model_obs(out)) if out is not common.NOMODEL else canon_obs(spec_obs(h, qs))
         cs = canon_obs(spec_obs(h, qs))
         if len(h) >= 2 and len(set(tuple(k) for k, _ in h)) < len(h):
             nontriv.add(repr(h))
